@@ -30,7 +30,7 @@ var prop = vlib.Prop[*Case]{
 		"precondition (else discarded and counted): the running mirror equals the model merge on every path of the re-applied intents; " +
 		"non-trivial = the re-submitted subset contains a fully shadowed or a partly shadowed (mixed) intent; distinct = distinct case JSON",
 	Gen: func(t *rapid.T) *Case {
-		c := &Case{Hist: vlib.GenHistCase(t, vlib.HistGenOpts{Universe: vlib.UniPlain, MinSteps: 1, MaxSteps: 8, WithInit: true, AllowOrphan: true})}
+		c := &Case{Hist: vlib.GenHistCase(t, vlib.HistGenOpts{Universe: vlib.UniPlainNA, MinSteps: 1, MaxSteps: 8, WithInit: true, AllowOrphan: true})}
 		for i := 0; i < vlib.NumOwners; i++ {
 			c.Subset = append(c.Subset, rapid.IntRange(0, 2).Draw(t, "resubmit") != 0)
 		}
